@@ -1,4 +1,6 @@
 import JaqalProofs.Props.C05Class
+import JaqalProofs.Lemmas.BuiltWellFormedFull
+import JaqalProofs.Lemmas.PreFlat
 import JaqalProofs.Props.C02
 /-!
 # C16 — failures are JaqalErrors with a position; no crashes, hangs or sticky state
@@ -8,51 +10,39 @@ Model: `RunModel.runModel cfg ov txt` (`JaqalModel/Model/RunModel.lean`) =
 `Good16 e` = `e` is `Err.jaqal _` (JaqalError), `Err.importErr` (ImportError) or `Err.parse line col` (JaqalParseError);
 in particular NOT `Err.other _` (a foreign exception class) and NOT `Err.hang` (`Good16.not_other`).
 
-## What is proved
+## What is proved — everything, without hypotheses
 
-* **`C16_total_partial`** — for every text, configuration and override list, every failure of `runModel` is `Good16`, GIVEN the
-  two named hypotheses below.  Proved without hypotheses, for ALL inputs, and composed here:
+* **`C16_total`** — for every text, configuration (gate set, autoload switch, import function) and override list, every failure
+  of `runModel` is `Good16`.  Composition, stage by stage:
   - the parser fails with its own `parseError line col` only (`C02_no_fuel_error` inside `parseText`) and the builder with
     `JaqalError` / `ImportError` only (`C16_parse_build_total`): `parseProgram_class`;
-  - every circuit built from text is TYPED (`built_typed`, `Lemmas/BuiltTyped.lean`: every gate argument, count and register
-    is a number, a numeric let constant, a parameter, a register sized and sliced by ints or integer constants, or a qubit of
-    such a register / of a parameter with an int, integer-constant or parameter index): `parseProgram_typed`;
-  - `expand_subcircuits` fails with `JaqalError` only (`C09_total_class`; a built circuit's body is a block: `parseProgram_body`)
-    and keeps the circuit typed (`expandSubcircuits_typed`);
+  - every circuit built from text is TYPED (`built_typed`, `Lemmas/BuiltTyped.lean`) and SCOPED (`built_scoped`,
+    `Lemmas/BuiltScoped.lean`: no parameter in the body, only its own in a macro body, loop bodies are blocks — from the grammar,
+    `parseText_grammarSx`, `Lemmas/GrammarShape.lean`);
+  - `expand_subcircuits` fails with `JaqalError` only (`C09_total_class`) and keeps both (`expandSubcircuits_typed`, `spell_scoped`);
   - `fill_in_let` fails with `JaqalError` / `ImportError` only, for every override list (`C05_total_class`, `Props/C05Class.lean`:
-    the visitors on a typed circuit, `C05_letSx_class`, and the rebuild, `rebuild_total` — `C16_builder_total` for the shapes the
-    visitors write): `fillInClass_all`;
-  - `expand_macros` fails with `JaqalError` only on a `WellFormed` circuit (`C04_total_class`);
-  - the executing stage on a flat typed circuit (`flatT_execClass`, `Lemmas/RunModelExec.lean`): `DiscoverSubcircuits`' bracket
-    errors, the used-qubit walk with its disjointness checks (`checkDisjoint_class`: enough fuel, no foreign class),
-    `resolve_qubit` / `resolve_size` on registers sized and sliced by ints (`resolveReg_class`, `resolveQubit_class`),
-    `get_n_qubits`, the size limit and the allocation, the emulator's handling of classical / qubit / register arguments
-    (`gateToken_class`) fail with `JaqalError` only; `TraceSerializer` does not raise on a discovered trace (`C03_serialize`)
-    and yields only gates of the program, so the gate table is never left (`segment_gks`, `skeleton_ids`); the walk of
-    `execute()` terminates without raising on every discovered trace list with the static fuel `fuelBound` (`C08_terminates`):
-    `execute_class`.
-* **`C16_pos_partial`** (same hypotheses; `C16_pos_parse` for the parsing entry point needs none; full statement `C16_pos_full`) —
-  a `JaqalParseError` of `runModel` is the parser's, and its position is `("EOF", 0)` or the line and column of a
+    the visitors `C05_letSx_class`, the rebuild `rebuild_total`): `fillInClass_all`;
+  - what it returns is `ExpandMacros.WellFormed` (`filled_wellFormed`, `Lemmas/BuiltWellFormedFull.lean`: `built_gateShape`,
+    `built_scope`, `filled_typed`), so `expand_macros` fails with `JaqalError` only (`C04_total_class`): `builtWellFormed_all`;
+  - what it returns also satisfies `PreC` (`filled_preC`, `Lemmas/PreFlat.lean`: `built_fits` — every statement of a built circuit
+    passed its definition's validation and `_validate_count` —, `C14_names_build`, `letVal_parIn`, `C14_sound`), so the expansion
+    is FLAT and TYPED (`expand_flat`, `Lemmas/ExpandFlat.lean`: substitution of closed typed arguments, re-validation,
+    `_validate_count` on substituted counts): `flatOf_all`;
+  - the executing stage on a flat typed circuit (`flatT_execClass`, `Lemmas/RunModelExec.lean`): bracket errors, the used-qubit
+    walk with its disjointness checks, `resolve_qubit` / `resolve_size`, `get_n_qubits`, the size limit and the allocation, the
+    emulator's handling of classical / qubit / register arguments fail with `JaqalError` only; `TraceSerializer` does not raise on
+    a discovered trace (`C03_serialize`) and never leaves the gate table (`segment_gks`, `skeleton_ids`); the walk of `execute()`
+    terminates without raising with the static fuel `fuelBound` (`C08_terminates`): `execute_class`.
+* **`C16_pos`** — a `JaqalParseError` of `runModel` is the parser's, and its position is `("EOF", 0)` or the line and column of a
   token start of the text / of the character the lexer refuses (`C02_error_pos_partial`).
 * **`C16_deterministic`**, `C16_history_perm`, `C16_history_interleave` — the model is a function of the text: the outcomes of a
   history of calls are the per-call outcomes, whatever the order and whatever failing calls are interleaved.  (Trivial in Lean;
   the content is that the REAL code agrees with a function — the correspondence `run_model` and the direct oracles
   `no_sticky_state` / `fresh_process_agrees` of `harness/agents/c16_diff.py`.)
 
-## What is NOT proved (named hypotheses of `C16_total_partial`; the full statement is `C16_total_full`)
-
-* `BuiltWellFormed` — the circuit `fill_in_let` returns is `ExpandMacros.WellFormed`.  The gate half is proved for every output of
-  `build` (`built_gateShape`, agent c10); the value half (`okVal`, `goodVal`) follows from the typing of `letVal`'s results
-  (`letVal_typed`) through `fillInLet_rebuilt`; missing: counts are `isIndexLike` (the builder's `validateCount`, not carried by
-  `StmtIn` yet) and `inScope` (a macro body calls earlier macros only — an invariant of the gate table during the build).
-* `FlatOf` — the expanded circuit is FLAT and TYPED (`FlatT`, `Lemmas/RunModelExec.lean`, a decidable structural predicate).
-  Missing: the typing carried through `substVal` (`expand_macros`), the scoping of macro parameters (every parameter in a macro
-  body is one of the macro's own, so none survives the expansion), and that a loop body is a block (true of the grammar, not of
-  the looser `ParserSx`).
-
-Each hypothesis is checked on every generated program by the differential test: a violation makes `run_model` answer a class that
-is not `JaqalError`, which the real code (oracle `only_jaqalerror_or_importerror`) does not produce; `stageB` below decides both
-for a given text (`C16_total_checked`).
+`C16_total_partial` / `C16_pos_partial` / `stageB` / `C16_total_checked` (the versions relative to the hypothesis `FlatOf`, and
+its evaluation on one text) are kept: they are how the differential test reads the statement, and the non-vacuity examples use
+them.
 -/
 namespace Jaqal.RunModel
 open Jaqal Jaqal.Builder Jaqal.Parser
@@ -85,6 +75,14 @@ def BuiltWellFormed (cfg : Config) (ov : List (String × Num)) (txt : String) : 
   ∀ c c1 c2, Pipeline.parseProgram cfg txt = .ok c → ExpandSubcircuits.expandSubcircuits none none c = .ok c1 →
     FillIn.fillInLet ov c1 = .ok c2 → ExpandMacros.WellFormed c2 = true
 
+/-- **`BuiltWellFormed` holds for every text, configuration and override list** (`filled_wellFormed`,
+`Lemmas/BuiltWellFormedFull.lean`: gate shapes and macro scoping of every output of `build`, typing of the visitors' results) -/
+theorem builtWellFormed_all (cfg : Config) (ov : List (String × Num)) (txt : String) : BuiltWellFormed cfg ov txt := by
+  intro c c1 c2 hc hc1 hc2
+  have ht1 := ExpandSubcircuits.expandSubcircuits_typed (parseProgram_typed hc) hc1
+  obtain ⟨stmts, _, _, _, _, _, rfl⟩ := ExpandSubcircuits.expand_ok hc1
+  exact FillIn.filled_wellFormed ht1 rfl hc2
+
 /-- the driver op `well_formed` (which the differential test evaluates on every generated program) decides the conclusion of
 `BuiltWellFormed` -/
 theorem C16_well_formed_op (c : Circuit) : WF.wellFormed c = true ↔ ExpandMacros.WellFormed c = true := by
@@ -114,13 +112,44 @@ theorem expandAll_class {cfg : Config} {ov : List (String × Num)} {txt : String
     obtain ⟨r, rfl⟩ := ExpandMacros.C04_total_class false c2 (hw c c1 c2 hc hc1 hc2) e he
     exact Good.jaqal r
 
-/-- **C16 (totality), relative to the two named lemmas.** Whatever the text, the gate set, the autoload switch, the import
-function and the override list: the model of `run_jaqal_circuit(parse_jaqal_string(text))` returns a result or fails with
-JaqalError, JaqalParseError or ImportError — never with another exception class, never without terminating. -/
-theorem C16_total_partial (cfg : Config) (ov : List (String × Num)) (txt : String)
-    (hw : BuiltWellFormed cfg ov txt) (hfl : FlatOf cfg ov txt) :
+/-- **`FlatOf` holds for every text, configuration and override list** (`filled_preC`, `Lemmas/PreFlat.lean`: the circuit
+`fill_in_let` returns satisfies `PreC` — validated gate statements bound to native gates / macros / anonymous definitions,
+typed constant-free values with scoped parameters, int-or-parameter loop counts, block loop bodies, positive register sizes;
+`expand_flat`, `Lemmas/ExpandFlat.lean`: the expansion of such a circuit is `FlatT`) -/
+theorem flatOf_all (cfg : Config) (ov : List (String × Num)) (txt : String) : FlatOf cfg ov txt := by
+  intro c x hc hx
+  unfold expandAll at hx
+  obtain ⟨c1, hc1, hx⟩ := bind_ok hx
+  obtain ⟨c2, hc2, hx⟩ := bind_ok hx
+  unfold Pipeline.parseProgram Pipeline.parseSx at hc
+  cases hp : Parser.parseText txt with
+  | error pe => rw [hp] at hc; cases hc
+  | ok sx =>
+    rw [hp] at hc
+    exact expand_flat (filled_preC (parseText_grammarSx hp) (parseText_parserSx hp) hc hc1 hc2) hx
+
+/-- **C16 (totality).** Whatever the text, the gate set, the autoload switch, the import function and the override list: the
+model of `run_jaqal_circuit(parse_jaqal_string(text))` returns a result or fails with JaqalError, JaqalParseError or ImportError —
+never with another exception class, never without terminating.  No hypothesis. -/
+theorem C16_total (cfg : Config) (ov : List (String × Num)) (txt : String) :
     ∀ e, runModel cfg ov txt = .error e → Good16 e := by
   have hf := fillInClass_all cfg ov txt
+  have hw := builtWellFormed_all cfg ov txt
+  have hx := (flatOf_all cfg ov txt).execClassOf
+  show Cls Good16 (runModel cfg ov txt)
+  unfold runModel
+  refine Cls.bind (parseProgram_class cfg txt) (fun c hc => ?_)
+  unfold runCircuit
+  refine Cls.bind ((expandAll_class hc hf hw).mono (fun _ => Good.good16)) (fun x hxx => ?_)
+  exact (execute_class x (hx c x hc hxx)).mono (fun _ => Good.good16)
+
+/-- **C16 (totality), relative to the one named lemma.** Whatever the text, the gate set, the autoload switch, the import
+function and the override list: the model of `run_jaqal_circuit(parse_jaqal_string(text))` returns a result or fails with
+JaqalError, JaqalParseError or ImportError — never with another exception class, never without terminating. -/
+theorem C16_total_partial (cfg : Config) (ov : List (String × Num)) (txt : String) (hfl : FlatOf cfg ov txt) :
+    ∀ e, runModel cfg ov txt = .error e → Good16 e := by
+  have hf := fillInClass_all cfg ov txt
+  have hw := builtWellFormed_all cfg ov txt
   have hx := hfl.execClassOf
   show Cls Good16 (runModel cfg ov txt)
   unfold runModel
@@ -129,12 +158,15 @@ theorem C16_total_partial (cfg : Config) (ov : List (String × Num)) (txt : Stri
   refine Cls.bind ((expandAll_class hc hf hw).mono (fun _ => Good.good16)) (fun x hxx => ?_)
   exact (execute_class x (hx c x hc hxx)).mono (fun _ => Good.good16)
 
-/-- The full statement, NOT proved: `C16_total_partial` without its two hypotheses, for every gate set (since the repair of
+/-- The full statement, NOT proved: `C16_total_partial` without its hypothesis, for every gate set (since the repair of
 the emulator a gate that takes a register is emulated too).  What is missing is listed in the header:
-`BuiltWellFormed` and `FlatOf` as consequences of the invariants of `Builder.build` (`ValT`/`RegT`, `StmtKnown`, `NamesValid`,
+`FlatOf` as a consequence of the invariants of `Builder.build` (`ValT`/`RegT`, `StmtKnown`, `NamesValid`,
 `ValOK`), carried through `expand_subcircuits`, `fill_in_let` and `expand_macros`. -/
 def C16_total_full : Prop :=
   ∀ (cfg : Config) (ov : List (String × Num)) (txt : String) (e : Err), runModel cfg ov txt = .error e → Good16 e
+
+/-- the full statement holds -/
+theorem C16_total_full_holds : C16_total_full := fun cfg ov txt e h => C16_total cfg ov txt e h
 
 /-- a good error is neither a foreign class nor non-termination -/
 theorem C16_no_crash_no_hang {e : Err} (h : Good16 e) : (∀ c, e ≠ .other c) ∧ e ≠ .hang := h.not_other
@@ -158,11 +190,12 @@ theorem parseText_eof_col {txt : String} {c : Nat} (h : parseText txt = .error (
 /-- **C16 (position).** A syntax error of the pipeline — including input that ends too early — is the parser's error, and it
 carries `("EOF", 0)` or the line and column of a place of THIS text where a token starts or where lexing stops. -/
 theorem C16_pos_partial (cfg : Config) (ov : List (String × Num)) (txt : String) (l : Option Nat) (c : Nat)
-    (h : runModel cfg ov txt = .error (.parse l c)) (hw : BuiltWellFormed cfg ov txt) (hfl : FlatOf cfg ov txt) :
+    (h : runModel cfg ov txt = .error (.parse l c)) (hfl : FlatOf cfg ov txt) :
     parseText txt = .error (.parseError l c) ∧
     ((l = none ∧ c = 0) ∨ ∃ l', l = some l' ∧ Jaqal.C02.IsTokenPos txt l' c) := by
   have hx := hfl.execClassOf
   have hf := fillInClass_all cfg ov txt
+  have hw := builtWellFormed_all cfg ov txt
   have hp : Pipeline.parseProgram cfg txt = .error (.parse l c) := by
     unfold runModel at h
     cases hc : Pipeline.parseProgram cfg txt with
@@ -188,6 +221,15 @@ def C16_pos_full : Prop :=
   ∀ (cfg : Config) (ov : List (String × Num)) (txt : String) (l : Option Nat) (c : Nat),
     runModel cfg ov txt = .error (.parse l c) →
     parseText txt = .error (.parseError l c) ∧ ((l = none ∧ c = 0) ∨ ∃ l', l = some l' ∧ Jaqal.C02.IsTokenPos txt l' c)
+
+/-- **C16 (position), no hypothesis.** -/
+theorem C16_pos (cfg : Config) (ov : List (String × Num)) (txt : String) (l : Option Nat) (c : Nat)
+    (h : runModel cfg ov txt = .error (.parse l c)) :
+    parseText txt = .error (.parseError l c) ∧
+    ((l = none ∧ c = 0) ∨ ∃ l', l = some l' ∧ Jaqal.C02.IsTokenPos txt l' c) :=
+  C16_pos_partial cfg ov txt l c h (flatOf_all cfg ov txt)
+
+theorem C16_pos_full_holds : C16_pos_full := fun cfg ov txt l c h => C16_pos cfg ov txt l c h
 
 /-- the position half needs no hypothesis when stated for the parsing entry point alone -/
 theorem C16_pos_parse (cfg : Config) (txt : String) (l : Option Nat) (c : Nat)
@@ -272,23 +314,18 @@ def stageB (cfg : Config) (ov : List (String × Num)) (txt : String) : Bool :=
          | .ok x => FlatT x)
 
 theorem stageB_hyps {cfg : Config} {ov : List (String × Num)} {txt : String} (h : stageB cfg ov txt = true) :
-    BuiltWellFormed cfg ov txt ∧ FlatOf cfg ov txt := by
-  refine ⟨?_, ?_⟩
-  · intro c c1 c2 hc hc1 hc2
-    simp only [stageB, hc, hc1, hc2, Bool.and_eq_true] at h
-    exact h.1
-  · intro c x hc hx
-    unfold expandAll at hx
-    obtain ⟨c1, hc1, hx⟩ := bind_ok hx
-    obtain ⟨c2, hc2, hx⟩ := bind_ok hx
-    simp only [stageB, hc, hc1, hc2, hx, Bool.and_eq_true] at h
-    exact h.2
+    FlatOf cfg ov txt := by
+  intro c x hc hx
+  unfold expandAll at hx
+  obtain ⟨c1, hc1, hx⟩ := bind_ok hx
+  obtain ⟨c2, hc2, hx⟩ := bind_ok hx
+  simp only [stageB, hc, hc1, hc2, hx, Bool.and_eq_true] at h
+  exact h.2
 
 /-- `C16_total_partial` with its hypotheses replaced by their evaluation on the text at hand -/
 theorem C16_total_checked (cfg : Config) (ov : List (String × Num)) (txt : String) (h : stageB cfg ov txt = true) :
     ∀ e, runModel cfg ov txt = .error e → Good16 e :=
-  let ⟨hw, hx⟩ := stageB_hyps h
-  C16_total_partial cfg ov txt hw hx
+  C16_total_partial cfg ov txt (stageB_hyps h)
 
 /-- non-vacuity of `C16_total_partial` / `C16_pos_partial`: the hypotheses hold for `let n 2; register q[n]; map a q[0:n];
 macro m x y { < X x | X y > }; loop 2 { subcircuit n { m a[0] q[1] } }; prepare_all; X a[1]; measure_all` (with an override) -/
@@ -329,3 +366,6 @@ end Jaqal.RunModel
 #print axioms Jaqal.RunModel.C16_total_checked
 #print axioms Jaqal.RunModel.C16_well_formed_op
 #print axioms Jaqal.RunModel.C16_no_crash_no_hang
+#print axioms Jaqal.RunModel.C16_total
+#print axioms Jaqal.RunModel.flatOf_all
+#print axioms Jaqal.RunModel.C16_pos
